@@ -9,7 +9,9 @@ DESIGN_REF = "DESIGN.md §4 C15"
 RULE = ("the C13 universe biased to pairs where something would be copied, cloned or merged (nested documents "
         "included), conflicting files sharing size and mtime, excluded names on either side and inside copied "
         "directories; x {dry_run, deep, 12 exclude settings, selection by job / id, parallel in {False, 2, True}} x "
-        "4 entry points; every dry run and every parallel run is paired with the real / sequential run from an "
+        "4 entry points; half of the list-valued exclude settings also passed as a tuple / a one-shot iterator (refused "
+        "with TypeError, or accepted and then equal in outcome and destination tree to the list spelling, on scratch "
+        "copies); every dry run and every parallel run is paired with the real / sequential run from an "
         "identical copy of the initial state; distinct = distinct (layout, options, entry point); non-trivial = "
         "something to synchronise")
 MODELLED = ["as C13, plus: multiprocessing.pool.ThreadPool (not modelled; the commutation theorem covers every "
